@@ -55,10 +55,12 @@ impl Matcher for SingleExecMatcher {
     fn matches(&self, file_info: &WalkEntry, _: &mut MatcherIO) -> bool {
         let mut command = Command::new(&self.executable);
         let path_to_file = if self.exec_in_parent_dir {
-            if let Some(f) = file_info.path().file_name() {
-                Path::new(".").join(f)
-            } else {
-                Path::new(".").join(file_info.path())
+            // The command runs in the parent directory (`Path::parent`), so the entry is
+            // named by its last component there - also when that is `..` (for "dir/.."
+            // the parent is "dir", where "./.." names the entry; `file_name` has none).
+            match file_info.path().components().next_back() {
+                Some(last) => Path::new(".").join(last),
+                None => Path::new(".").join(file_info.path()),
             }
         } else {
             file_info.path().to_path_buf()
@@ -151,10 +153,12 @@ impl MultiExecMatcher {
 impl Matcher for MultiExecMatcher {
     fn matches(&self, file_info: &WalkEntry, matcher_io: &mut MatcherIO) -> bool {
         let path_to_file = if self.exec_in_parent_dir {
-            if let Some(f) = file_info.path().file_name() {
-                Path::new(".").join(f)
-            } else {
-                Path::new(".").join(file_info.path())
+            // The command runs in the parent directory (`Path::parent`), so the entry is
+            // named by its last component there - also when that is `..` (for "dir/.."
+            // the parent is "dir", where "./.." names the entry; `file_name` has none).
+            match file_info.path().components().next_back() {
+                Some(last) => Path::new(".").join(last),
+                None => Path::new(".").join(file_info.path()),
             }
         } else {
             file_info.path().to_path_buf()
